@@ -83,7 +83,7 @@ def gap_rule(ctx: Ctx, rs: RuleSet):
   L = next(iter(lists))
   # helpers (nested defs) that append to L
   helpers = {}
-  for name, h in f.nested.items():
+  for name, h in list(f.nested.items()) + list(ctx.lifted_helpers(f).items()):
     if any(_appends_to(n, L) for n in walk_function(h.node)):
       helpers[name] = h
 
@@ -118,12 +118,32 @@ def gap_rule(ctx: Ctx, rs: RuleSet):
                          blocked={n}, labels=cfg_lib.NO_EXC)
     if any(emits(x) for x in body_nodes):
       param_loops.append((n, body_nodes))
+  # the loop over the signature's parameters: the outermost emitting loop
+  # (loops inside it - e.g. an inlined flush of the skipped parameters - are
+  # summarised: such a loop emits iff its body does)
+  all_bodies = {n: b for n, b in param_loops}
+  for wn in [n for n in g.nodes() if g.kind[n] == 'while']:
+    all_bodies[wn] = g.reach([m for m, lab in g.succ[wn] if lab == 'true'],
+                             blocked={wn}, labels=cfg_lib.NO_EXC)
+  param_loops = [(n, b) for n, b in param_loops
+                 if not any(n in ob for on, ob in all_bodies.items() if on != n)]
+  param_loops = [(n, b) for n, b in param_loops if 'parameters' in unparse(
+      roles.deref_deep(f, g.stmt[n].iter))] or param_loops
   if len(param_loops) != 1:
     raise AnalysisError(f'{T2AK}: expected one per-parameter loop that emits '
                         f'positional values, found {len(param_loops)}')
   head, body_nodes = param_loops[0]
-  if any(g.kind[x] in ('for', 'while') for x in body_nodes if x != head):
-    raise AnalysisError(f'{T2AK}: per-parameter loop body is not acyclic')
+  inner_loops = {x: g.reach([m for m, lab in g.succ[x] if lab in (
+      'iter', 'true')], blocked={x}, labels=cfg_lib.NO_EXC)
+                 for x in body_nodes if x != head and g.kind[x] in (
+                     'for', 'while')}
+  inner_nodes = set().union(*inner_loops.values()) if inner_loops else set()
+  _emits0 = emits
+
+  def emits(node_id):  # pylint: disable=function-redefined
+    if node_id in inner_loops:
+      return any(_emits0(y) for y in inner_loops[node_id])
+    return _emits0(node_id)
   # enumerate iteration paths head -iter-> ... -> head, per parameter kind:
   # a test that the kind decides has one feasible branch; for the others the
   # part of the test that the kind leaves open (its residual) is recorded
@@ -141,6 +161,8 @@ def gap_rule(ctx: Ctx, rs: RuleSet):
           continue
         if n == head and lab != 'iter':
           continue
+        if n in inner_loops and lab in ('iter', 'true'):
+          continue  # summarised: only the way out is followed
         ds = decisions
         if g.kind[n] == 'if' and lab in ('true', 'false'):
           r = sigrules.residual(g.stmt[n].test, kind)
@@ -377,6 +399,16 @@ def kd_rules(ctx: Ctx, rs: RuleSet, L: str, helpers):
               _appends_to(c, L) or (isinstance(c.func, ast.Name) and
                                     c.func.id in helpers)):
             for a0 in c.args:
+              if isinstance(a0, ast.Name):
+                # a local holding the value read from the store on this path
+                for j in range(i - 1, -1, -1):
+                  sj = g.stmt[pth[j]]
+                  if g.kind[pth[j]] == 'stmt' and isinstance(
+                      sj, ast.Assign) and any(
+                          isinstance(t, ast.Name) and t.id == a0.id
+                          for t in sj.targets):
+                    a0 = sj.value
+                    break
               if isinstance(a0, ast.Subscript) and isinstance(
                   a0.value, ast.Name) and a0.value.id == arg_param:
                 first = first or g.stmt[x]
